@@ -63,7 +63,7 @@ type acct struct {
 }
 
 const (
-	nAcct    = 8
+	nAcct    = 9
 	nEth     = 2
 	nCode    = 3
 	fundONT  = 1000
@@ -113,6 +113,7 @@ func setup() {
 		mk(2, pool["p256"][4], pool["ed"][1]),
 		mk(1, pool["k1"][0]),
 		mk(1, pool["p384"][0]),
+		mk(2, pool["p256"][5], pool["p256"][6], pool["ed"][2], pool["sm2"][1]),
 	}
 	for i := 0; i < nEth; i++ {
 		k, err := ethcrypto.GenerateKey()
@@ -153,9 +154,13 @@ func ethAddr(i int) common.Address {
 
 // sigSet builds the signature set of account a in the given shape; ok=false when the shape does not apply.
 //   c canonical | a alternative encoding of the first key | p PUSHDATA1 key pushes | u keys not in SortPublicKeys order | n key count pushed as bytes
-func sigSet(a acct, shape string) (*sg.SigSet, bool) {
+// sn = number of signatures carried (m <= sn <= n): the surplus ones are valid signatures of further keys of the script.
+func sigSet(a acct, shape string, sn int) (*sg.SigSet, bool) {
+	if sn < a.m || sn > len(a.keys) {
+		return nil, false
+	}
 	ss := &sg.SigSet{Keys: append([]sg.KeyInfo{}, a.keys...), M: a.m, Sorted: true}
-	for i := 0; i < a.m; i++ {
+	for i := 0; i < sn; i++ {
 		ss.Signers = append(ss.Signers, len(a.keys)-1-i) // the last m keys sign, in reverse order
 	}
 	if len(a.keys) > 1 {
@@ -190,7 +195,7 @@ func sigSet(a acct, shape string) (*sg.SigSet, bool) {
 		}
 		ss.Sorted = false
 		ss.Signers = nil
-		for i := 0; i < a.m; i++ {
+		for i := 0; i < sn; i++ {
 			ss.Signers = append(ss.Signers, i)
 		}
 	case "n":
@@ -205,16 +210,24 @@ func sigSet(a acct, shape string) (*sg.SigSet, bool) {
 	return ss, true
 }
 
-func parseSigner(s string) (int, string, bool) {
+// parseSigner: <acct>.<shape>[.<sn>]; sn = 0 when absent (= m)
+func parseSigner(s string) (int, string, int, bool) {
 	p := strings.Split(s, ".")
-	if len(p) != 2 {
-		return 0, "", false
+	if len(p) != 2 && len(p) != 3 {
+		return 0, "", 0, false
 	}
 	i, err := strconv.Atoi(p[0])
 	if err != nil || i < 0 || i >= nAcct {
-		return 0, "", false
+		return 0, "", 0, false
 	}
-	return i, p[1], true
+	sn := 0
+	if len(p) == 3 {
+		sn, err = strconv.Atoi(p[2])
+		if err != nil || sn < 1 {
+			return 0, "", 0, false
+		}
+	}
+	return i, p[1], sn, true
 }
 
 // ---------------------------------------------------------------------------------------------------------------
@@ -544,7 +557,7 @@ func exec(line string) hx.Result {
 	noncanon := false
 	for _, op := range strings.Split(f[1], ";") {
 		for _, fld := range strings.Split(op, ":") {
-			if i, sh, ok := parseSigner(fld); ok && (sh != "c" || i == 3) {
+			if i, sh, _, ok := parseSigner(fld); ok && (sh != "c" || i == 3) {
 				noncanon = true
 			}
 		}
@@ -586,22 +599,28 @@ func buildTx(p []string, nonce *uint32, ethNonce []uint64) (txSpec, bool) {
 	}
 	// optional separate payer: last field "-" or "<acct>.<shape>"
 	sets := func(signer, payer string) ([]*sg.SigSet, common.Address, int, bool) {
-		si, sh, ok := parseSigner(signer)
+		si, sh, sn, ok := parseSigner(signer)
 		if !ok {
 			return nil, common.Address{}, 0, false
 		}
-		ss, ok := sigSet(accts[si], sh)
+		if sn == 0 {
+			sn = accts[si].m
+		}
+		ss, ok := sigSet(accts[si], sh, sn)
 		if !ok {
 			return nil, common.Address{}, 0, false
 		}
 		out := []*sg.SigSet{ss}
 		pay := accts[si].addr
 		if payer != "-" {
-			pi, psh, ok := parseSigner(payer)
+			pi, psh, psn, ok := parseSigner(payer)
 			if !ok || pi == si {
 				return nil, common.Address{}, 0, false
 			}
-			ps, ok := sigSet(accts[pi], psh)
+			if psn == 0 {
+				psn = accts[pi].m
+			}
+			ps, ok := sigSet(accts[pi], psh, psn)
 			if !ok {
 				return nil, common.Address{}, 0, false
 			}
@@ -717,7 +736,7 @@ func main() {
 	}()
 	hx.Main(hx.Prop{
 		ID:   "C02",
-		Rule: "sequences of 1-4 blocks of 1-6 transactions on three fresh real solo ledgers: native ONT/ONG transfers, CheckWitness scripts (throwing / notifying), contract deployment and APPCALL of a CheckWitness contract, EIP-155 transfers; signed by 8 accounts (P-256, Ed25519, SM2, Ethereum-type, secp256k1, P-384 single keys, 2-of-3 and mixed 2-of-2 multi-signature) in every accepted script encoding (canonical, alternative key encoding, PUSHDATA1, unsorted keys, key count as bytes), gas price 0 or 2500, optional separate payer; non-trivial = every line",
+		Rule: "sequences of 1-4 blocks of 1-6 transactions on three fresh real solo ledgers: native ONT/ONG transfers, CheckWitness scripts (throwing / notifying), contract deployment and APPCALL of a CheckWitness contract, EIP-155 transfers; signed by 9 accounts (P-256, Ed25519, SM2, Ethereum-type, secp256k1, P-384 single keys, 2-of-3, mixed 2-of-2 and mixed 2-of-4 multi-signature, carrying exactly m, m<sn<n or all n signatures, as payer and as non-payer) in every accepted script encoding (canonical, alternative key encoding, PUSHDATA1, unsorted keys, key count as bytes), gas price 0 or 2500, optional separate payer; non-trivial = every line",
 		Gen:  gen, Exec: exec, Corpus: corpus,
 		N: map[string]int{"quick": 40, "thorough": 600},
 	})
